@@ -1,0 +1,37 @@
+//go:build verif
+
+package fasthttp
+
+// Contracts for workerpool.go, checked by /verif/gocv (comment-only; compiled to nothing).
+
+// workerFunc: every connection received is served exactly once and then either closed and reported
+// Closed, or reported Hijacked (and not closed); the worker count is decremented exactly once on exit.
+//@ func workerPool.workerFunc
+//@   property C13 C14 C10
+//@   mode skeleton
+//@   nooverflow
+//@   stable wp.workersCount
+//@   ghost servedNow int = 0
+//@   ghost closedNow int = 0
+//@   ghost reportedNow int = 0
+//@   ghost lastState int = -1
+//@   ghost hijNow bool = false
+//@   ghost released int = 0
+//@   on call field:WorkerFunc -> e:
+//@     requires[not-nil-conn] @C13 c != nil
+//@     effect servedNow = servedNow + 1; hijNow = (e == errHijacked)
+//@   on call net.Conn.Close:
+//@     effect closedNow = closedNow + 1
+//@   on call field:connState(_, x):
+//@     effect reportedNow = reportedNow + 1; lastState = x
+//@   on call workerPool.release -> ok:
+//@     requires[served-once] @C13 servedNow == 1
+//@     requires[one-terminal-state] @C14 reportedNow == 1 && lastState == (hijNow ? StateHijacked : StateClosed)
+//@     requires[closed-unless-hijacked] @C10 @C13 closedNow == (hijNow ? 0 : 1)
+//@     effect released = released + 1
+//@   end
+//@   loop 1:
+//@     iter servedNow = 0; closedNow = 0; reportedNow = 0; lastState = -1; hijNow = false
+//@     atend[released-after-serving] @C13 released == 1
+//@     iter released = 0
+//@   ensures[worker-count-decremented-once] @C13 wp.workersCount == old(wp.workersCount) - 1
